@@ -11,6 +11,7 @@
     back deltas), which is what the index bookkeeping of the Cython loops
     (start = i + 1 ascending, stop = i descending) amounts to. *)
 From Coq Require Import ZArith List Bool.
+From CV Require Export Model.Base.
 Import ListNotations.
 Open Scope Z_scope.
 
@@ -28,7 +29,6 @@ Fixpoint tscan (ds : list Z) (k s mx best : Z) : Z :=
 
 Definition trimcount (ds : list Z) : Z := tscan ds 0 0 0 0.
 
-Definition zlen {A} (l : list A) : Z := Z.of_nat (length l).
 
 Definition deltas (cutoff base : Z) (quals : list Z) : list Z :=
   map (fun q => cutoff - (q - base)) quals.
